@@ -26,11 +26,15 @@
 (*     at top level or inside a component body.  Compiled by Template(src).  *)
 (*                                                                          *)
 (* Time bound: the CPU time a parse may take is CpuBudgetMs(number of        *)
-(* characters) = BudgetBaseMs + n^2 / BudgetQuadDiv  milliseconds.  The       *)
-(* unchanged scanners are linear (about 0.02 ms per character measured), so  *)
-(* the bound is >= 90 x the measured cost at every length that is generated  *)
-(* (n <= 4000); it is deliberately generous - a time bound must never alarm  *)
-(* on a loaded machine - and still far below exponential cost at k >= 40.    *)
+(* characters) = BudgetBaseMs + n^2 / BudgetQuadDiv  milliseconds.  Measured *)
+(* on the unchanged scanners: linear inputs need about 0.02 ms per character *)
+(* (40 ms for a 1500-character template: 1/80 of the bound), the one          *)
+(* quadratic family - nested translation openers `_(`^m - about 0.6 us * n^2  *)
+(* (150 ms for the longest one generated, 500 characters: 1/8 of the bound); *)
+(* the worst cpu/bound ratio of a run is written to the evidence file.  The   *)
+(* bound is deliberately generous - a time bound must never alarm on a       *)
+(* loaded machine, and it is CPU time of the parsing process, not wall time -*)
+(* and still far below exponential cost at k >= 40 repetitions.              *)
 (* (The harness reads the two constants from this file.)                     *)
 (***************************************************************************)
 EXTENDS Naturals, Sequences
